@@ -458,13 +458,27 @@ pub fn has_unguarded_alias_cycle(p: &Project) -> bool {
                     j += 1;
                     let mut depth = 0i32;
                     let mut prev = String::new();
+                    // type arguments of utility types that look *through* their operand are transparent too
+                    let mut angle_stack: Vec<bool> = vec![];
                     while j < toks.len() {
                         let t = &toks[j];
                         match t.as_str() {
                             // parentheses are transparent: `(T) & X` is still unguarded
                             "(" | ")" => {}
-                            "{" | "[" | "<" => depth += 1,
-                            "}" | "]" | ">" => depth -= 1,
+                            "<" => {
+                                let transparent = matches!(prev.as_str(), "Readonly" | "Partial" | "Required" | "Pick" | "Omit" | "Exclude" | "Record");
+                                angle_stack.push(transparent);
+                                if !transparent {
+                                    depth += 1;
+                                }
+                            }
+                            ">" => {
+                                if !angle_stack.pop().unwrap_or(false) {
+                                    depth -= 1;
+                                }
+                            }
+                            "{" | "[" => depth += 1,
+                            "}" | "]" => depth -= 1,
                             ";" if depth <= 0 => break,
                             _ => {}
                         }
@@ -477,7 +491,11 @@ pub fn has_unguarded_alias_cycle(p: &Project) -> bool {
                         if depth == 0 && t.chars().next().map(|c| c.is_alphabetic() || c == '_').unwrap_or(false) && prev != "." && prev != "typeof" && prev != "keyof" {
                             // an identifier followed by `<` or `[` is a constructor application: guarded
                             let next = toks.get(j + 1).map(|x| x.as_str()).unwrap_or("");
-                            if next != "<" && next != "[" && next != "." && next != ":" && next != "=>" {
+                            let utility = matches!(t.as_str(), "Readonly" | "Partial" | "Required" | "Pick" | "Omit" | "Exclude" | "Record" | "keyof" | "readonly" | "extends" | "infer");
+                            // `name:` is a parameter/member name only right after `(`, `,` or `...`; after `?` it is the
+                            // true branch of a conditional type
+                            let is_label = next == ":" && matches!(prev.as_str(), "(" | "," | "..." | "{" | ";" | "readonly");
+                            if !utility && !is_label && next != "<" && next != "." && next != "=>" {
                                 edges.entry(name.clone()).or_default().insert(t.clone());
                             }
                         }
